@@ -138,6 +138,9 @@ func mutateMemo(template, path, mut string) (string, bool) {
 			return template + "}", true
 		case "leadgarbage":
 			return "x" + template, true
+		case "tworoots":
+			// the orbiter key between TWO foreign root keys
+			return `{"forward":{"receiver":"x"},` + template[1:len(template)-1] + `,"wasm":{"contract":"y"}}`, true
 		}
 		return template, false
 	}
